@@ -8,6 +8,7 @@ collisions in a GNU chain, bloom-filter false positives — plus cursor displace
 queries.  Reference model: the table itself scanned linearly; the hashed part is the set of
 indices reachable by walking the raw bucket/chain words (elfraw).
 """
+import itertools
 from ..core import env, runner, forkpool, elfraw, elfedit, elfbuild
 from ..core.prng import substream, run_seed, digest as pdigest, h64
 from ..core.simdisk import SimStream
@@ -252,6 +253,11 @@ def execute_spec(spec):
                 want.discard(hb)
         queries += ['', 'été', '名前'] + unhashed[:5]
         r.shuffle(queries)
+        # enumeration of the held table interleaved with the lookups: abandoned after k entries, or complete (an entry of the
+        # query list that is a list, not a name); the lookups that follow must not be answered from what such a pass left behind
+        if r.random() < 0.5:
+            for k in r.sample([1, 2, 3, max(1, m['n'] // 2), None, None], r.choice([1, 2, 3])):
+                queries.insert(r.randrange(0, min(len(queries), 12) + 1), ['iter', k])
         displace = [r.choice([None, None, 0, 1, len(data), r.randrange(len(data))]) for _ in queries] \
             if r.random() < 0.6 else [None] * len(queries)
         via_segment = (spec['variant'] % 5 == 4)
@@ -364,6 +370,22 @@ def execute_spec(spec):
         dp = displace[qi] if qi < len(displace) else None
         if dp is not None:
             stream.displace(dp)
+        if isinstance(q, list):
+            if via_segment or not m['enum_ok'] or not hasattr(symtab, 'iter_symbols'):
+                continue
+            k = q[1]
+            try:
+                gotl = [canon(s_) for s_ in itertools.islice(symtab.iter_symbols(), k)]
+                gn = symtab.num_symbols()
+            except Exception as e:
+                gotl = exc_obs(e); gn = None
+            exp = m['canon'] if k is None else m['canon'][:k]
+            if gotl != exp or gn != m['n']:
+                viol('enumeration-held', 'enumerating the held table (first k entries, or all) yields the table entries in index order, whatever was enumerated or looked up before',
+                     dict(take=k, entries=len(exp), num_symbols=m['n']), dict(entries=len(gotl) if isinstance(gotl, list) else jsonable(gotl, 200), num_symbols=gn), q)
+            probes['held_enumerations'] = probes.get('held_enumerations', 0) + 1
+            log.append(('iter', k, len(gotl) if isinstance(gotl, list) else 'exc'))
+            continue
         idxs = by_name.get(q, [])
         findable = [i for i in idxs if i in reachable and i not in unfindable]
         maybe = [i for i in idxs if i in reachable]
